@@ -744,6 +744,9 @@ impl<const M: usize> Sim<M> {
             self.push_trace(OUT_SKIP, 0, 0);
             return;
         }
+        if op.a & 0xC0 == 0xC0 && M == 1 && self.opts.uniform.is_none() {
+            return self.op_collection_handoff(op);
+        }
         let fallible = self.fallible(op.a & 1 == 1);
         let len = if op.b >= 240 { op.c as usize * 29 } else { op.c as usize };
         let l = Layout::array::<u8>(len).unwrap();
@@ -773,6 +776,160 @@ impl<const M: usize> Sim<M> {
             }
         }
         self.finish_step(OpKind::Alloc, what, pre, outcome, ptr, len);
+    }
+}
+
+/// what a collection hand-off leaves in the arena: (address, element count)
+fn handoff<T: Copy + 'static>(b: &Bump<1>, elems: &[T], cap: usize, variant: u8, fallible: bool) -> Option<(usize, usize)> {
+    use bumpalo::boxed::Box as BBox;
+    use bumpalo::collections::Vec as BVec;
+    let mut v: BVec<T> = if fallible {
+        let mut v = BVec::new_in(b);
+        if v.try_reserve_exact(cap).is_err() {
+            return None;
+        }
+        v
+    } else {
+        BVec::with_capacity_in(cap, b)
+    };
+    v.extend_from_slice_copy(elems);
+    Some(match variant {
+        1 => {
+            let s = v.into_bump_slice_mut();
+            (s.as_mut_ptr() as usize, s.len())
+        }
+        2 => {
+            let s = BBox::leak(v.into_boxed_slice());
+            (s.as_mut_ptr() as usize, s.len())
+        }
+        3 => {
+            let raw = BBox::into_raw(v.into_boxed_slice());
+            (raw as *mut T as usize, unsafe { (&*raw).len() })
+        }
+        6 => {
+            let n = v.len() / 2;
+            v.truncate(n);
+            let s = v.into_bump_slice();
+            (s.as_ptr() as usize, s.len())
+        }
+        _ => {
+            let s = v.into_bump_slice();
+            (s.as_ptr() as usize, s.len())
+        }
+    })
+}
+
+fn handoff_str(b: &Bump<1>, text: &str, cap: usize, variant: u8, fallible: bool) -> Option<(usize, usize)> {
+    use bumpalo::collections::{String as BString, Vec as BVec};
+    let s: BString = if fallible {
+        let mut v: BVec<u8> = BVec::new_in(b);
+        if v.try_reserve_exact(cap).is_err() {
+            return None;
+        }
+        v.extend_from_slice_copy(text.as_bytes());
+        BString::from_utf8(v).ok()?
+    } else {
+        let mut s = BString::with_capacity_in(cap, b);
+        s.push_str(text);
+        s
+    };
+    Some(if variant == 5 {
+        let r = s.into_bytes().into_bump_slice();
+        (r.as_ptr() as usize, r.len())
+    } else {
+        let r = s.into_bump_str();
+        (r.as_ptr() as usize, r.len())
+    })
+}
+
+impl<const M: usize> Sim<M> {
+    /// A collection or box built in the arena and then handed over to it (`into_bump_slice(_mut)`, `into_bump_str`,
+    /// `into_bytes`, `into_boxed_slice` + `leak`/`into_raw`): what it leaves behind is a live block like any other
+    /// (C01/C02: inside the arena, disjoint from later blocks, contents intact). Only for `Bump<1>`.
+    pub fn op_collection_handoff(&mut self, op: Op) {
+        // The collections report an allocation failure with a formatted panic message, which itself allocates from the
+        // global allocator; that is ordinary Rust out-of-memory behaviour and outside the listed properties, so the
+        // panicking route is only taken when the reservation cannot fail (no limit, no fault plan).
+        let can_fail = self.limit.is_some() || crate::ledger::plan(self.id) != crate::ledger::Plan::None;
+        let fallible = self.fallible(op.a & 1 == 1) || can_fail;
+        let variant = (op.a >> 1) & 7;
+        let esz: usize = match variant {
+            4 | 5 => 1,
+            _ => 1 << ((op.a >> 4) & 3),
+        };
+        let cap = if op.b >= 240 { op.c as usize * 13 } else { op.c as usize };
+        // how full the collection is when it is handed over: empty, a quarter, under half, almost, exactly full
+        let len = match op.b % 5 {
+            0 => cap,
+            1 => cap / 4,
+            2 => cap.saturating_sub(1) / 2,
+            3 => cap.saturating_sub(1),
+            _ => cap.min(1),
+        };
+        let l = Layout::from_size_align(cap * esz, esz).unwrap();
+        let id = self.fresh_id();
+        let mut bytes = vec![0u8; len * esz];
+        fill_pat(id, &mut bytes);
+        let text: String = (0..len).map(|j| (b'a' + pat(id, j) % 26) as char).collect();
+        let e16: Vec<u16> = if esz == 2 { bytes.chunks(2).map(|c| u16::from_ne_bytes([c[0], c[1]])).collect() } else { vec![] };
+        let e32: Vec<u32> = if esz == 4 { bytes.chunks(4).map(|c| u32::from_ne_bytes([c[0], c[1], c[2], c[3]])).collect() } else { vec![] };
+        let e64: Vec<u64> = if esz == 8 { bytes.chunks(8).map(|c| u64::from_ne_bytes([c[0], c[1], c[2], c[3], c[4], c[5], c[6], c[7]])).collect() } else { vec![] };
+        self.note_align_stats(cap * esz, esz);
+        let pre = self.pre(if cap > 0 { Some(l) } else { None }, fallible);
+        let what: &'static str = match (variant, fallible) {
+            (1, false) => "Vec::with_capacity_in + into_bump_slice_mut",
+            (1, true) => "Vec::try_reserve_exact + into_bump_slice_mut",
+            (2, false) => "Vec::with_capacity_in + into_boxed_slice + Box::leak",
+            (2, true) => "Vec::try_reserve_exact + into_boxed_slice + Box::leak",
+            (3, false) => "Vec::with_capacity_in + into_boxed_slice + Box::into_raw",
+            (3, true) => "Vec::try_reserve_exact + into_boxed_slice + Box::into_raw",
+            (4, false) => "String::with_capacity_in + into_bump_str",
+            (4, true) => "Vec::try_reserve_exact + String::from_utf8 + into_bump_str",
+            (5, false) => "String::with_capacity_in + into_bytes + into_bump_slice",
+            (5, true) => "Vec::try_reserve_exact + String::from_utf8 + into_bytes + into_bump_slice",
+            (6, false) => "Vec::with_capacity_in + truncate + into_bump_slice",
+            (6, true) => "Vec::try_reserve_exact + truncate + into_bump_slice",
+            (_, false) => "Vec::with_capacity_in + into_bump_slice",
+            (_, true) => "Vec::try_reserve_exact + into_bump_slice",
+        };
+        let res = self.call(|b| {
+            let b1: &Bump<1> = (b as &dyn std::any::Any).downcast_ref::<Bump<1>>().expect("M == 1");
+            match (variant, esz) {
+                (4, _) | (5, _) => handoff_str(b1, &text, cap, variant, fallible),
+                (_, 2) => handoff(b1, &e16, cap, variant, fallible),
+                (_, 4) => handoff(b1, &e32, cap, variant, fallible),
+                (_, 8) => handoff(b1, &e64, cap, variant, fallible),
+                _ => handoff(b1, &bytes, cap, variant, fallible),
+            }
+        });
+        let (outcome, r) = self.post_call(OpKind::Alloc, what, res, pre);
+        let mut ptr = 0;
+        let mut got_len = 0;
+        if let Some((p, n)) = r {
+            ptr = p;
+            let want_n = if variant == 6 { len / 2 } else { len };
+            if n != want_n {
+                self.v("C02", format!("{what}: handed over {n} elements, the collection held {want_n}"));
+            }
+            let size = n.min(want_n) * esz;
+            got_len = size;
+            self.st(St::Handoff);
+            if self.check_new_block(what, p, size, esz, None) {
+                let got = unsafe { std::slice::from_raw_parts(p as *const u8, size) };
+                let want: &[u8] = if variant == 4 || variant == 5 { &text.as_bytes()[..size] } else { &bytes[..size] };
+                if got != want {
+                    self.v("C02", format!("{what}(capacity {cap}, {len} elements of {esz} bytes): the handed-over contents read back differently"));
+                }
+                if variant == 4 || variant == 5 {
+                    unsafe { write_pat(id, p as *mut u8, size) };
+                }
+                self.add_block(id, p, size, esz, false);
+            }
+        }
+        if outcome == OUT_PANIC {
+            // with_capacity_in failed before anything was allocated; the generic failure oracle applies
+        }
+        self.finish_step(OpKind::Alloc, what, pre, outcome, ptr, got_len);
     }
 }
 
